@@ -83,6 +83,10 @@ class P:
                 return lhs
             self.i += n
             rhs = self.expr(PREC[op] + 1)
+            if op == ">":
+                # `a > b` is `b < a` (both operands are side-effect free expressions)
+                lhs = "(bin < %s %s)" % (rhs, lhs)
+                continue
             lhs = "(bin %s %s %s)" % (op, lhs, rhs)
 
     def unary(self):
